@@ -750,6 +750,11 @@ class B09Machine:
         return self.labels[n]
 
     def store(self, lhs, v, by_read=False):
+        # BASIC09 is typed: a string variable takes a string, a REAL variable a number (not a BOOLEAN)
+        want_str = lhs[1].endswith("$")
+        if isinstance(v, bool) or isinstance(v, str) != want_str:
+            kind = "BOOLEAN" if isinstance(v, bool) else ("string" if isinstance(v, str) else "number")
+            raise S.EvalError(f"BASIC09: a {kind} is assigned to the {'string' if want_str else 'numeric'} variable {lhs[1]}")
         if self.strict and isinstance(v, str):
             v = v[:self.env.strsize.get(lhs[1], 32)]
         if lhs[0] == "id":
